@@ -4,6 +4,7 @@ from __future__ import annotations
 import ast
 
 from ..algebra import NotPolynomial, Poly, ToPoly
+from ..amatch import AM
 from ..report import AnalysisError
 from ..srcmodel import norm
 from .c07 import axis_slices, dim_guard
@@ -20,31 +21,20 @@ def rule_a(ctx):
     m = ctx.model
     f = m.func(MOD, "FVDivergence.__init__")
     g = f.params[1]
-    env = {norm(s.targets[0]): s.value for s in ast.walk(f.node) if isinstance(s, ast.Assign) and isinstance(s.targets[0], ast.Name)}
+    am = AM(f)
     ctx.instance(R)
-
-    def comp(name):
-        v = env.get(name)
-        if isinstance(v, ast.Call) and norm(v.func) == "np.concatenate" and v.args and isinstance(v.args[0], ast.ListComp):
-            lc = v.args[0]
-            if len(lc.generators) == 1 and norm(lc.generators[0].iter) == f"range({g}.dim)" and isinstance(lc.generators[0].target, ast.Name):
-                return lc.elt, lc.generators[0].target.id
-        return None, None
-
-    e, d = comp("div_data")
-    ok = False
-    if e is not None and isinstance(e, ast.BinOp) and isinstance(e.op, ast.Mult):
-        sides = {norm(e.left), norm(e.right)}
-        ok = sides == {f"{g}.face_vol[{d}]", f"np.tile([1, -1], {g}.num_faces_per_axis[{d}])"}
-    ctx.ob(R, f.qname, "data: face area of axis d times the sign pair (+1, -1), one pair per face of axis d", ok, norm(e) if e is not None else "", f.node)
-    e, d = comp("div_row")
-    ctx.ob(R, f.qname, "rows: (lower cell, higher cell) of each face of axis d, in face order", e is not None and norm(e) == f"np.ravel({g}.connectivity[{g}.faces[{d}]])", norm(e) if e is not None else "", f.node)
-    ctx.ob(R, f.qname, "columns: each face index twice", norm(env.get("div_col", ast.Constant(0))) == f"np.repeat(np.arange({g}.num_faces, dtype=int), 2)", norm(env.get("div_col", ast.Constant(0))), f.node)
-    ctx.ob(R, f.qname, "shape (num_cells, num_faces)", norm(env.get("div_shape", ast.Constant(0))) == f"({g}.num_cells, {g}.num_faces)", norm(env.get("div_shape", ast.Constant(0))), f.node)
-    mat = env.get("div")
-    ok = isinstance(mat, ast.Call) and norm(mat.func) in ("sps.csc_matrix", "sps.csr_matrix", "sps.coo_matrix") and norm(mat.args[0]) == "(div_data, (div_row, div_col))" \
-        and any(k.arg == "shape" and norm(k.value) == "div_shape" for k in mat.keywords)
-    ctx.ob(R, f.qname, "matrix assembled from (data, (rows, cols)) with that shape", ok, norm(mat) if mat is not None else "", f.node)
+    d1 = (am.has(f.node, f"div_data = np.concatenate([{g}.face_vol[d] * np.tile([1, -1], {g}.num_faces_per_axis[d]) for d in range({g}.dim)])")
+          or am.has(f.node, f"div_data = np.concatenate([np.tile([1, -1], {g}.num_faces_per_axis[d]) * {g}.face_vol[d] for d in range({g}.dim)])"))
+    ctx.ob(R, f.qname, "data: face area of axis d times the sign pair (+1, -1), one pair per face of axis d", d1 is not None, "", f.node)
+    d2 = am.has(f.node, f"div_row = np.concatenate([np.ravel({g}.connectivity[{g}.faces[d]]) for d in range({g}.dim)])")
+    ctx.ob(R, f.qname, "rows: (lower cell, higher cell) of each face of axis d, in face order", d2 is not None, "", f.node)
+    d3 = am.has(f.node, f"div_col = np.repeat(np.arange({g}.num_faces, dtype=int), 2)")
+    ctx.ob(R, f.qname, "columns: each face index twice", d3 is not None, "", f.node)
+    d4 = am.has(f.node, f"div_shape = ({g}.num_cells, {g}.num_faces)")
+    ctx.ob(R, f.qname, "shape (num_cells, num_faces)", d4 is not None, "", f.node)
+    d5 = any(am.has(f.node, f"div = sps.{k}((div_data, (div_row, div_col)), shape=div_shape)") is not None for k in ("csc_matrix", "csr_matrix", "coo_matrix"))
+    ctx.ob(R, f.qname, "matrix assembled from (data, (rows, cols)) with that shape", d5, "", f.node)
+    ctx.ob(R, f.qname, "the assembled matrix is what the operator exposes", am.has(f.node, "self.mat = div") is not None, str(am.show()), f.node)
     ctx.floor(R, 1)
 
 
@@ -55,21 +45,15 @@ def rule_b(ctx):
     m = ctx.model
     f = m.func(MOD, "FVMass.__init__")
     g = f.params[1]
+    am = AM(f)
     ctx.instance(R)
-    vals = [s for s in ast.walk(f.node) if isinstance(s, ast.Assign) and norm(s.targets[0]) == "mass_matrix"]
-    env = {norm(s.targets[0]): norm(s.value) for s in ast.walk(f.node) if isinstance(s, ast.Assign) and isinstance(s.targets[0], ast.Name)}
-    texts = []
-    for s in vals:
-        t = norm(s.value)
-        for k, v in env.items():
-            if k != "mass_matrix":
-                t = t.replace(k, f"({v})")
-        texts.append(t)
-    cells = f"sps.diags(np.prod({g}.voxel_size) * np.ones({g}.num_cells, dtype=float))"
-    faces = f"sps.diags(np.prod({g}.voxel_size) * (np.ones({g}.num_faces, dtype=float)))"
-    ctx.ob(R, f.qname, "cells: diag(prod(voxel_size) * ones(num_cells))", cells in texts, str(texts[:2]), f.node)
-    ctx.ob(R, f.qname, "faces (lumped): diag(prod(voxel_size) * ones(num_faces))", faces in texts, str(texts[:2]), f.node)
-    modes = sorted({c.comparators[0].value for c in ast.walk(f.node) if isinstance(c, ast.Compare) and norm(c.left) == "mode" and isinstance(c.comparators[0], ast.Constant)})
+    c1 = am.has(f.node, f"mass_matrix = sps.diags(np.prod({g}.voxel_size) * np.ones({g}.num_cells, dtype=float))")
+    ctx.ob(R, f.qname, "cells: diag(prod(voxel_size) * ones(num_cells))", c1 is not None, "", f.node)
+    c2 = (am.has(f.node, f"volume_scaling = np.ones({g}.num_faces, dtype=float)") is not None and am.has(f.node, f"mass_matrix = sps.diags(np.prod({g}.voxel_size) * volume_scaling)") is not None) \
+        or am.has(f.node, f"mass_matrix = sps.diags(np.prod({g}.voxel_size) * np.ones({g}.num_faces, dtype=float))") is not None
+    ctx.ob(R, f.qname, "faces (lumped): diag(prod(voxel_size) * ones(num_faces))", c2, "", f.node)
+    ctx.ob(R, f.qname, "the diagonal matrix is what the operator exposes", am.has(f.node, "self.mat = mass_matrix") is not None, "", f.node)
+    modes = sorted({c.comparators[0].value for c in ast.walk(f.node) if isinstance(c, ast.Compare) and norm(c.left) == f.params[2] and isinstance(c.comparators[0], ast.Constant)})
     ctx.ob(R, f.qname, "mode vocabulary is {cells, faces}", modes == ["cells", "faces"], str(modes), f.node)
     ctx.floor(R, 1)
 
@@ -82,7 +66,10 @@ def rule_c(ctx):
     m = ctx.model
     f = m.func(MOD, "face_to_cell")
     g, flux, pt = f.params[0], f.params[1], f.params[2]
-    ups = [s for s in ast.walk(f.node) if isinstance(s, ast.AugAssign) and isinstance(s.target, ast.Subscript) and norm(s.target.value) == "cell_flux"]
+    am = AM(f)
+    alloc_ok = am.has(f.node, f"cell_flux = np.zeros((*{g}.shape, {g}.dim), dtype=float)") is not None
+    out_name = am.actual("cell_flux") or "cell_flux"
+    ups = [s for s in ast.walk(f.node) if isinstance(s, ast.AugAssign) and isinstance(s.target, ast.Subscript) and norm(s.target.value) == out_name]
     per_axis = {}
     for s in ups:
         m_, ell = axis_slices(s.target)
@@ -128,8 +115,7 @@ def rule_c(ctx):
     ctx.floor(R, 3)
     dflt = [norm(s.value) for s in ast.walk(f.node) if isinstance(s, ast.Assign) and norm(s.targets[0]) == pt and dim_guard(s, f.node) is None]
     ctx.ob(R, f.qname, "default evaluation point is the cell centre", f"np.ones({g}.dim) / 2" in dflt, str(dflt), f.node)
-    alloc = [norm(s.value) for s in ast.walk(f.node) if isinstance(s, ast.Assign) and norm(s.targets[0]) == "cell_flux"]
-    ctx.ob(R, f.qname, "result is zero-initialised with one component per axis", alloc == [f"np.zeros((*{g}.shape, {g}.dim), dtype=float)"], str(alloc), f.node)
+    ctx.ob(R, f.qname, "result is zero-initialised with one component per axis and returned", alloc_ok and am.has(f.node, "return cell_flux") is not None, "", f.node)
 
 
 def rule_d(ctx):
@@ -138,34 +124,31 @@ def rule_d(ctx):
              "the two, harmonic = hmean over the same two; vocabulary {arithmetic, harmonic} with else: raise")
     m = ctx.model
     f = m.func(MOD, "cell_to_face_average")
-    g = f.params[0]
+    g, mode = f.params[0], f.params[2]
+    am = AM(f)
     ctx.instance(R)
     loops = [l for l in ast.walk(f.node) if isinstance(l, ast.For) and norm(l.iter) == f"range({g}.dim)" and any("connectivity" in norm(s) for s in l.body)]
     ok = False
     if len(loops) == 1:
-        k = loops[0].target.id
-        env = {norm(s.targets[0]): norm(s.value) for s in loops[0].body if isinstance(s, ast.Assign) and isinstance(s.targets[0], ast.Name)}
-        stores = {norm(s.targets[0]): norm(s.value) for s in loops[0].body if isinstance(s, ast.Assign) and isinstance(s.targets[0], ast.Subscript)}
-        fa = [n for n, v in env.items() if v == f"{g}.faces[{k}]"]
-        nb = [n for n, v in env.items() if fa and v == f"{g}.connectivity[{fa[0]}]"]
-        if fa and nb:
-            ok = stores == {f"neighbouring_cell_values[{fa[0]}, 0]": f"flat_cell_qty[{k}][{nb[0]}[:, 0]]", f"neighbouring_cell_values[{fa[0]}, 1]": f"flat_cell_qty[{k}][{nb[0]}[:, 1]]"}
-    ctx.ob(R, f.qname, "both columns of connectivity[faces[o]] are gathered for every orientation o", ok, "", f.node)
-    avg = {}
-    for iff in ast.walk(f.node):
-        if isinstance(iff, ast.If) and norm(iff.test) == "mode == 'arithmetic'":
-            cur = iff
-            while True:
-                lit = cur.test.comparators[0].value
-                avg[lit] = [norm(s.value) for s in cur.body if isinstance(s, ast.Assign)]
-                if len(cur.orelse) == 1 and isinstance(cur.orelse[0], ast.If):
-                    cur = cur.orelse[0]
-                    continue
-                avg["__else_raises__"] = any(isinstance(s, ast.Raise) for s in cur.orelse)
-                break
-    ctx.ob(R, f.qname, "arithmetic = 0.5 * sum of the two neighbours", avg.get("arithmetic") == ["0.5 * np.sum(neighbouring_cell_values, axis=1)"], str(avg.get("arithmetic")), f.node)
-    ctx.ob(R, f.qname, "harmonic = hmean of the same two neighbours", avg.get("harmonic") == ["hmean(neighbouring_cell_values, axis=1)"], str(avg.get("harmonic")), f.node)
-    ctx.ob(R, f.qname, "vocabulary {arithmetic, harmonic}, else raises", set(avg) == {"arithmetic", "harmonic", "__else_raises__"} and avg.get("__else_raises__"), str(sorted(avg)), f.node)
+        ok = am.eq(loops[0].target, "orientation") and am.eq_block([s for s in loops[0].body if not (isinstance(s, ast.Expr) and isinstance(s.value, ast.Constant))], [
+            f"faces = {g}.faces[orientation]",
+            f"neighbouring_cells = {g}.connectivity[faces]",
+            "neighbouring_cell_values[faces, 0] = flat_cell_qty[orientation][neighbouring_cells[:, 0]]",
+            "neighbouring_cell_values[faces, 1] = flat_cell_qty[orientation][neighbouring_cells[:, 1]]",
+        ])
+    ctx.ob(R, f.qname, "both columns of connectivity[faces[o]] are gathered for every orientation o", ok, str(am.show()), f.node)
+    chain = [n for n in ast.walk(f.node) if isinstance(n, ast.If) and norm(n.test) == f"{mode} == 'arithmetic'"]
+    a_ok = h_ok = e_ok = False
+    if len(chain) == 1:
+        cur = chain[0]
+        a_ok = am.eq_block(cur.body, ["face_qty = 0.5 * np.sum(neighbouring_cell_values, axis=1)"])
+        if len(cur.orelse) == 1 and isinstance(cur.orelse[0], ast.If) and norm(cur.orelse[0].test) == f"{mode} == 'harmonic'":
+            h_ok = am.eq_block(cur.orelse[0].body, ["face_qty = hmean(neighbouring_cell_values, axis=1)"])
+            e_ok = any(isinstance(x, ast.Raise) for x in cur.orelse[0].orelse)
+    ctx.ob(R, f.qname, "arithmetic = 0.5 * sum of the two neighbours", a_ok, "", f.node)
+    ctx.ob(R, f.qname, "harmonic = hmean of the same two neighbours", h_ok, "", f.node)
+    ctx.ob(R, f.qname, "vocabulary {arithmetic, harmonic}, else raises", e_ok, "", f.node)
+    ctx.ob(R, f.qname, "the averaged quantity is returned", am.has(f.node, "return face_qty") is not None, "", f.node)
     ctx.floor(R, 1)
 
 
@@ -178,45 +161,29 @@ def rule_e(ctx):
     m = ctx.model
     f = m.func(MOD, "FVTangentialFaceReconstruction.__init__")
     g = f.params[1]
+    am = AM(f)
     ctx.instance(R)
-    env = {norm(s.targets[0]): s.value for s in ast.walk(f.node) if isinstance(s, ast.Assign)}
-    ctx.ob(R, f.qname, "weight 0.25 on four entries per face", norm(env.get("data", ast.Constant(0))) == f"0.25 * np.ones(4 * {g}.num_faces, dtype=float)", norm(env.get("data", ast.Constant(0))), f.node)
-    ctx.ob(R, f.qname, "rows repeat each face of axis d four times", norm(env.get("rows", ast.Constant(0))) == f"np.concatenate([np.repeat({g}.faces[d], 4) for d in range({g}.dim)])", norm(env.get("rows", ast.Constant(0))), f.node)
-    cols = env.get("cols")
-    ok = False
-    desc = norm(cols)[:200] if cols is not None else ""
-    if isinstance(cols, ast.ListComp) and norm(cols.generators[0].iter) == f"range({g}.dim - 1)":
-        i = cols.generators[0].target.id
-        inner = cols.elt
-        if isinstance(inner, ast.Call) and norm(inner.func) == "np.concatenate" and isinstance(inner.args[0], ast.ListComp):
-            lc = inner.args[0]
-            gens = lc.generators
-            if len(gens) == 2 and norm(gens[0].iter) == f"range({g}.dim)":
-                d = gens[0].target.id
-                dp = gens[1].target.id
-                ok = (norm(gens[1].iter) == f"[np.delete(range({g}.dim), {d})[{i}]]"
-                      and norm(lc.elt) == f"np.ravel({g}.reverse_connectivity[{dp}, np.ravel({g}.connectivity[{g}.faces[{d}]])])")
-    ctx.ob(R, f.qname, "columns: faces of the orthogonal axis d_perp in both neighbour cells of each face", ok, desc, f.node)
-    mat = env.get("self.mat")
-    ok = False
-    if isinstance(mat, ast.ListComp) and norm(mat.generators[0].iter) == "cols":
-        c = mat.generators[0].target.id
-        ok = norm(mat.elt) == f"sps.csc_matrix((data[{c} != -1], (rows[{c} != -1], {c}[{c} != -1])), shape=shape)"
-    ctx.ob(R, f.qname, "'no face' entries are masked identically in data, rows and columns", ok, norm(mat)[:160] if mat is not None else "", f.node)
-    ctx.ob(R, f.qname, "operator is square on faces", norm(env.get("shape", ast.Constant(0))) == f"({g}.num_faces, {g}.num_faces)", "", f.node)
+    ctx.ob(R, f.qname, "weight 0.25 on four entries per face", am.has(f.node, f"data = 0.25 * np.ones(4 * {g}.num_faces, dtype=float)") is not None, "", f.node)
+    ctx.ob(R, f.qname, "rows repeat each face of axis d four times", am.has(f.node, f"rows = np.concatenate([np.repeat({g}.faces[d], 4) for d in range({g}.dim)])") is not None, "", f.node)
+    c_ok = am.has(f.node, f"cols = [np.concatenate([np.ravel({g}.reverse_connectivity[d_perp, np.ravel({g}.connectivity[{g}.faces[d]])]) for d in range({g}.dim) "
+                          f"for d_perp in [np.delete(range({g}.dim), d)[i]]]) for i in range({g}.dim - 1)]")
+    ctx.ob(R, f.qname, "columns: faces of the orthogonal axis d_perp in both neighbour cells of each face", c_ok is not None, "", f.node)
+    m_ok = am.has(f.node, "self.mat = [sps.csc_matrix((data[col != -1], (rows[col != -1], col[col != -1])), shape=shape) for col in cols]")
+    ctx.ob(R, f.qname, "'no face' entries are masked identically in data, rows and columns", m_ok is not None, "", f.node)
+    ctx.ob(R, f.qname, "operator is square on faces", am.has(f.node, f"shape = ({g}.num_faces, {g}.num_faces)") is not None, str(am.show()), f.node)
     r = m.func(MOD, "FVFullFaceReconstruction.__call__")
-    loops = [l for l in ast.walk(r.node) if isinstance(l, ast.For)]
+    am2 = AM(r)
+    nf = r.params[1]
+    loops = [l for l in r.node.body if isinstance(l, ast.For)]
     ok = False
-    if len(loops) == 2:
-        outer = next(l for l in loops if any(isinstance(s, ast.For) for s in l.body))
-        inner = next(s for s in outer.body if isinstance(s, ast.For))
-        d = outer.target.id
-        nf = r.params[1]
-        st0 = [norm(s) for s in outer.body if isinstance(s, ast.Assign)]
-        ok = (norm(outer.iter) == "range(dim)" and st0 == [f"full_flux[self.grid.faces[{d}], {d}] = {nf}[self.grid.faces[{d}]]"]
-              and norm(inner.iter) == f"enumerate(np.delete(range(dim), {d}))"
-              and [norm(s) for s in inner.body] == [f"full_flux[self.grid.faces[{d}], {norm(inner.target.elts[1])}] = tangential_fluxes[{norm(inner.target.elts[0])}][self.grid.faces[{d}]]"])
-    ctx.ob(R, r.qname, "normal flux in component d, i-th tangential flux in component delete(range(dim), d)[i]", ok, "", r.node)
+    if len(loops) == 1 and am2.has(r.node, "dim = self.grid.dim") is not None and am2.has(r.node, f"tangential_fluxes = self.tangential_reconstruction({nf}, False)") is not None \
+            and am2.has(r.node, "full_flux = np.zeros((self.grid.num_faces, dim), dtype=float)") is not None:
+        outer = loops[0]
+        ok = am2.eq(outer.iter, "range(dim)") and am2.eq(outer.target, "d") and am2.eq_block(outer.body, [
+            f"full_flux[self.grid.faces[d], d] = {nf}[self.grid.faces[d]]",
+            "for i, d_perp in enumerate(np.delete(range(dim), d)):\n    full_flux[self.grid.faces[d], d_perp] = tangential_fluxes[i][self.grid.faces[d]]",
+        ])
+    ctx.ob(R, r.qname, "normal flux in component d, i-th tangential flux in component delete(range(dim), d)[i]", ok and am2.has(r.node, "return full_flux") is not None, str(am2.show()), r.node)
     ctx.floor(R, 1)
 
 
